@@ -170,6 +170,14 @@ def run_crate(group, units, jobs, mem_gb, tag, only=None):
     filters = sorted({u.harness_filter for u in units})
     timeout = max(u.timeout for u in units)
     mem_gb = max([mem_gb] + [u.mem for u in units if u.mem])
+    if mem_gb >= 24:
+        # memory-hungry harnesses: never start more CBMC processes than fit into RAM together
+        total_gb = 56
+        try:
+            total_gb = max(16, int(open("/proc/meminfo").readline().split()[1]) // (1 << 20) - 6)
+        except Exception:
+            pass
+        jobs = max(1, min(jobs, total_gb // mem_gb))
     cmd = kani_cmd(filters, jobs, timeout, json_out, target_dir)
     t0 = time.time()
     with open(logf, "w") as lf:
